@@ -3,6 +3,7 @@ package checks
 import (
 	"encoding/json"
 	"fmt"
+	"strings"
 	"sync/atomic"
 
 	"github.com/paulsonkoly/chess-3/board"
@@ -27,6 +28,18 @@ var c06Histories = []searchReq{
 	{FEN: "4k3/8/8/8/8/8/4P3/4K2R w K - 0 1", Moves: []string{"h1h2", "e8d8", "h2h1", "d8e8", "h1h2", "e8d8", "h2h1", "d8e8"}},
 	{FEN: "6k1/5q2/8/8/8/8/5PPP/6K1 b - - 0 1", Moves: []string{"f7f4", "g1h1", "f4g4", "h1g1", "g4f4", "g1h1", "f4g4", "h1g1"}},
 	{FEN: "7k/8/8/8/8/8/r7/1R5K w - - 96 70", Moves: []string{"b1c1", "a2b2", "c1d1"}},
+	// look-alikes: the root has the placement and side of two earlier positions, but the first of them still had a
+	// castling right (or a capturable en-passant pawn) that is gone now: second occurrence, not third - the game goes on
+	{FEN: "r3k2r/pppppppp/8/8/8/8/PPPPPPPP/R3K2R w KQkq - 0 1", Moves: []string{"a1b1", "a8b8", "b1a1", "b8a8", "a1b1", "a8b8", "b1a1", "b8a8"}},
+	{FEN: "r3k2r/pppppppp/8/8/8/8/PPPPPPPP/R3K2R w KQkq - 0 1", Moves: []string{"h1g1", "h8g8", "g1h1", "g8h8", "h1g1", "h8g8", "g1h1", "g8h8"}},
+	{FEN: "r3k2r/pppppppp/8/8/8/8/PPPPPPPP/R3K2R w KQkq - 0 1", Moves: []string{"e1f1", "e8f8", "f1e1", "f8e8", "e1f1", "e8f8", "f1e1", "f8e8"}},
+	{FEN: "r3k2r/pppppppp/8/8/8/8/PPPPPPPP/R3K2R w KQkq - 0 1", Moves: []string{"a1b1", "e8f8", "b1a1", "f8e8", "a1b1", "e8f8", "b1a1", "f8e8"}},
+	{FEN: "r3k3/pppppppp/8/8/8/8/PPPPPPPP/4K1N1 w q - 0 1", Moves: []string{"g1f3", "a8b8", "f3g1", "b8a8", "g1f3", "a8b8", "f3g1", "b8a8"}},
+	{FEN: "4k2r/pppppppp/8/8/8/8/PPPPPPPP/4K1N1 w k - 0 1", Moves: []string{"g1f3", "h8g8", "f3g1", "g8h8", "g1f3", "h8g8", "f3g1", "g8h8"}},
+	{FEN: "4k1n1/pppppppp/8/8/8/8/PPPPPPPP/4K2R w K - 0 1", Moves: []string{"h1g1", "g8f6", "g1h1", "f6g8", "h1g1", "g8f6", "g1h1", "f6g8"}},
+	{FEN: "4k1n1/pppppppp/8/8/8/8/PPPPPPPP/R3K3 w Q - 0 1", Moves: []string{"a1b1", "g8f6", "b1a1", "f6g8", "a1b1", "g8f6", "b1a1", "f6g8"}},
+	{FEN: "4k3/8/8/8/3p4/8/4P3/4K3 w - - 0 1", Moves: []string{"e2e4", "e8d8", "e1d1", "d8e8", "d1e1", "e8d8", "e1d1", "d8e8", "d1e1"}},
+	{FEN: "4k3/4p3/8/3P4/8/8/8/4K3 b - - 0 1", Moves: []string{"e7e5", "e1d1", "e8d8", "d1e1", "d8e8", "e1d1", "e8d8", "d1e1", "d8e8"}},
 }
 
 // c06Game is a sequence of searches on one instance; the last one fails.
@@ -78,6 +91,20 @@ func (c *c06Runner) one(h *history, req searchReq, extra func(h *history, req se
 }
 
 func c06Replay(class string, raw json.RawMessage) (bool, string) {
+	if strings.HasPrefix(class, "poisoned/") {
+		return poisonReplay("C06", raw)
+	}
+	if strings.HasPrefix(class, "stop/") {
+		var c c06StopCase
+		if err := json.Unmarshal(raw, &c); err != nil {
+			return false, err.Error()
+		}
+		if !Instrumented {
+			return false, "a stop-poll fault plan can only be replayed by the instrumented binary (bin/check C06 --replay)"
+		}
+		cls, msg, _ := c06StopOne(search.New(32000), c.FEN, c.Depth, c.StopAt)
+		return cls != "", msg
+	}
 	var c c06Case
 	if err := json.Unmarshal(raw, &c); err != nil {
 		return false, err.Error()
@@ -312,6 +339,9 @@ func runC06(r *ev.Run) {
 
 	// (b) the stop channel observed closed at the i-th poll for EVERY i (instrumented fault-plan run:
 	// reaches the polls after a child returns, in the quiescence loop and at the root)
+	pz := poisonSweep(r, "C06")
+	r.Set("poisoned_table_searches", pz)
+	searches.Add(pz)
 	stopRuns := c06StopSweep(r)
 	r.Set("stop_poll_sweep_searches", stopRuns)
 	abortPoints.Add(stopRuns)
@@ -331,7 +361,7 @@ func runC06(r *ev.Run) {
 	r.Set("abort_points", abortPoints.Load())
 	r.Set("uci_go_commands", uciN)
 	r.Set("distinct_outcomes", map[string]int64{"final_roots": finals.Load(), "null_move_returned": nullReturns.Load(), "aborted_before_first_iteration_completed": fallbacks.Load()})
-	r.Set("rule", "roots (constructed special roots incl. in-check, single-reply, promotion, clocks 98/99/100, mates, stalemates; histories with second and third occurrences; perft and bench roots) x depth x table size; abort points: hard node budget k for every k in [0, nodes of the full search]+1 (strided beyond the cap, dense at both ends), the soft node limit at every iteration boundary, the stop channel closed at every poll and soft time limits on a virtual clock (instrumented fault plans), the same budgets on a never-cleared instance; every position of a 3-man class with budgets {none,0,1,5,17}; `go` through a real driver with numeric edge arguments; oracle: move null or legal, null only on final roots, completed search on a final root returns (0,0) or (0,-Inf), board snapshot unchanged, nodes <= budget, a second search on the same instance obeys the same; non-trivial = aborted searches")
+	r.Set("rule", "roots (constructed special roots incl. in-check, single-reply, promotion, clocks 98/99/100, mates, stalemates; histories with second and third occurrences; perft and bench roots) x depth x table size; abort points: hard node budget k for every k in [0, nodes of the full search]+1 (strided beyond the cap, dense at both ends), the soft node limit at every iteration boundary, the stop channel closed at every poll and soft time limits on a virtual clock (instrumented fault plans), the same budgets on a never-cleared instance; poisoned tables (the entry of the root or of a position one move below it holds an arbitrary move encoding, every from/to pair); every position of a 3-man class with budgets {none,0,1,5,17}; `go` through a real driver with numeric edge arguments; oracle: move null or legal, null only on final roots, completed search on a final root returns (0,0) or (0,-Inf), board snapshot unchanged, nodes <= budget, a second search on the same instance obeys the same; non-trivial = aborted searches")
 	r.Set("exhaustive", false)
 	r.Assume("abort by the stop channel at every poll is enumerated by the instrumented fault-plan run (see C06 stop sweep in evidence when the instrumented binary is available); hard node budgets reach the polls at node entry only")
 }
